@@ -6,8 +6,8 @@ import MV.Model.C16Common
 `buf (p * ps + e)` (every page has exactly `ps = pageSize` cells).  The index arithmetic of the Go
 code (`index / pageSize`, `index % pageSize`, the page count of `Grow`, the page drop of `Del`) is
 transcribed as written; an access outside the allocated pages or with a negative index is the Go
-panic.  A freshly appended page is zeroed (`make([]T, pageSize)`); `Del` re-slices `pages` and leaves the
-vacated last cell as it is.
+panic.  A freshly appended page is zeroed (`make([]T, pageSize)`); `Del` re-slices `pages` and (since the
+`fix:` commit) zeroes the vacated last cell.
 
 Guard: `pageSize ≥ 1` (0 divides by zero, a negative size makes `make` panic).
 
@@ -85,11 +85,22 @@ def batchGrowSet (s : Paged) (indexes values : List Int) : Option (Paged × Bool
   else if indexes.isEmpty then some (s, true)
   else some (writeAll (growTo s (maxIdx indexes)) indexes values)
 
-/-- `BatchSet(indexes, values)` -/
+/-- the loop of `BatchSet` (since the `fix:` commit): indexes outside `0..len-1` are skipped, as in `Set` -/
+def setAll (s : Paged) : List Int → List Int → Option Paged
+  | i :: is, v :: vs =>
+    if i < 0 ∨ i ≥ s.len then setAll s is vs
+    else match s.write i v with
+      | some s' => setAll s' is vs
+      | none => none
+  | _, _ => some s
+
+/-- `BatchSet(indexes, values)`; `none` = the length-mismatch panic, `(s, false)` = an index panic -/
 def batchSet (s : Paged) (indexes values : List Int) : Option (Paged × Bool) :=
   if indexes.length ≠ values.length then none
   else if indexes.isEmpty then some (s, true)
-  else some (writeAll s indexes values)
+  else match setAll s indexes values with
+    | some s' => some (s', true)
+    | none => some (s, false)
 
 /-- `Add(value)` -/
 def add (s : Paged) (v : Int) : Option Paged :=
@@ -110,9 +121,13 @@ def del (s : Paged) (index : Int) : Option Paged :=
       match s.write index lastV with
       | none => none
       | some s1 =>
-        let len' := s.len - 1
-        if len' % s.ps = 0 ∧ s.np > 1 then some { s1 with len := len', np := s.np - 1, lenLast := s.ps }
-        else some { s1 with len := len', lenLast := len' % s.ps }
+        -- `var zero T; s.pages[lastIndex/ps][lastIndex%ps] = zero` (the `fix:` commit)
+        match s1.write lastIndex 0 with
+        | none => none
+        | some s2 =>
+          let len' := s.len - 1
+          if len' % s.ps = 0 ∧ s.np > 1 then some { s2 with len := len', np := s.np - 1, lenLast := s.ps }
+          else some { s2 with len := len', lenLast := len' % s.ps }
 
 /-- `Get(index)` (no bounds check against `len` in the Go code) -/
 def get (s : Paged) (index : Int) : Option Int := s.read index
